@@ -328,11 +328,13 @@ Qed.
 Lemma ge_dtlz5 (x : list R) n : (2 <= n)%Z -> (n - 1 <= zlen x)%Z -> bm_dtlz5 x n = spec_bm_dtlz5 x n.
 Proof.
   intros H1 H2. unfold bm_dtlz5, spec_bm_dtlz5, dtlz_g2, dtlz_xc, dtlz_xm. start0. cbv zeta.
+  rewrite ?py_range3_down_rev by lia.
   rewrite !slice_from by lia. apply dtlz56_shape; assumption.
 Qed.
 Lemma ge_dtlz6 (x : list R) n : (2 <= n)%Z -> (n - 1 <= zlen x)%Z -> bm_dtlz6 x n = spec_bm_dtlz6 x n.
 Proof.
   intros H1 H2. unfold bm_dtlz6, spec_bm_dtlz6, dtlz_g6, dtlz_xc, dtlz_xm. start0. cbv zeta.
+  rewrite ?py_range3_down_rev by lia.
   rewrite !slice_from by lia. apply dtlz56_shape; assumption.
 Qed.
 Lemma ge_dtlz7 (x : list R) n : (1 <= n)%Z -> bm_dtlz7 x n = spec_bm_dtlz7 x n.
